@@ -55,6 +55,10 @@ def build_init_and_step_fn(
         """
         # Make the `trainable_params` of the same shape as the `param_state`, such that
         # they can be processed together by `get_all_parameters`.
+        # `get_all_parameters` reads `.jaxnodes`/`.jaxedges`: they must reflect the
+        # current `.nodes`/`.edges`, also if the module was modified after the last
+        # `integrate()`.
+        module.to_jax()
         pstate = params_to_pstate(params, module.indices_set_by_trainables)
         if param_state is not None:
             pstate += param_state
